@@ -32,7 +32,7 @@ OpSim == /\ Idle /\ L.nsys > 0
               /\ IF x.out = "ok" THEN mode' = "running" /\ runSys' = s /\ runEnd' = L.now[s] + d
                  ELSE Same
 Filters == {[name |-> n, id |-> i, type |-> t, subtype |-> u] :
-               n \in {"", "handler", "nosuch"}, i \in {0, 1, 2}, t \in {"", "PartHandler", "Sink"},
+               n \in {"", "handler", "nosuch", "<empty>"}, i \in {0, 1, 2, -1}, t \in {"", "PartHandler", "Sink"},
                u \in {"", "Asset", "PartHandler", "PartFlowController"}}
 OpFind == /\ Idle /\ L.nsys > 0 /\ Len(L.assets) > 0
           /\ \E s \in 1..L.nsys, f \in Filters : Rec([op |-> "find", sys |-> s, f |-> f]) /\ UNCHANGED L
